@@ -361,6 +361,44 @@ def ob_yield_kinds():
     return h
 
 
+def ob_deprecated():
+    """Build-options.md "deprecated:": a replaced value is stored as its replacement (and must then be valid), a deprecated-but-listed value is kept, a
+    renamed option forwards the value to the new option; anything else outside the choices is still rejected"""
+    def h():
+        K = O.OptionKey
+        store = new_store()
+        form = choose(4, 'form')
+        if form == 0:      # dict on a feature option
+            opt = O.UserFeatureOption('o', 'x', 'auto', deprecated={'true': 'enabled', 'false': 'disabled'})
+            v = sym_enum(['true', 'false', 'enabled', 'disabled', 'auto', 'bogus'], 'value')
+            exp = {'true': 'enabled', 'false': 'disabled', 'enabled': 'enabled', 'disabled': 'disabled', 'auto': 'auto', 'bogus': None}
+        elif form == 1:    # dict on an array option: each element is replaced
+            opt = O.UserStringArrayOption('o', 'x', ['b'], choices=['a', 'b', 'c'], deprecated={'a': 'c'})
+            v = sym_enum(['a', 'b', 'a,b', 'b,a', 'c', 'z', 'a,z'], 'value')
+            exp = {'a': ['c'], 'b': ['b'], 'a,b': ['c', 'b'], 'b,a': ['b', 'c'], 'c': ['c'], 'z': None, 'a,z': None}
+        elif form == 2:    # list: the value is deprecated but still the value
+            opt = O.UserComboOption('o', 'x', 'b', choices=['a', 'b'], deprecated=['a'])
+            v = sym_enum(['a', 'b', 'z'], 'value')
+            exp = {'a': 'a', 'b': 'b', 'z': None}
+        else:              # str: the option was renamed
+            opt = O.UserComboOption('o', 'x', 'b', choices=['a', 'b'], deprecated='n')
+            store.add_project_option(K('n', subproject=''), O.UserComboOption('n', 'x', 'b', choices=['a', 'b']))
+            v = sym_enum(['a', 'b', 'z'], 'value')
+            exp = {'a': 'a', 'b': 'b', 'z': None}
+        store.add_project_option(K('o', subproject=''), opt)
+        cv = v.concretize() if hasattr(v, 'concretize') else v
+        try:
+            store.set_option(K('o', subproject=''), cv)
+        except ME:
+            check(exp[cv] is None, 'MesonException only for a value that is invalid after the documented replacement'); cover('rejected'); return
+        check(exp[cv] is not None, 'an invalid value is rejected')
+        got = store.get_value_for(K('o', subproject=''))
+        check(got == exp[cv], 'the stored value is the (replaced) value')
+        if form == 3: check(store.get_value_for(K('n', subproject='')) == exp[cv], 'a renamed option forwards the value to the new option')
+        cover('accepted')
+    return h
+
+
 def obligations(tier):
     out = [Obligation('top/integer', ob_top_int(), dict(sources='2^3', values='-9..9 as int or 1-digit string', range='symbolic in -5..5'), labels=('accepted', 'rejected'), max_paths=2000000)]
     for kind in ('bool', 'combo', 'feature', 'string'):
@@ -370,6 +408,7 @@ def obligations(tier):
         out.append(Obligation('per-machine/%s' % ('cross' if cross else 'native'), ob_machine(cross), dict(option='pkg_config_path / build.pkg_config_path', source='any of 3'), labels=('done',)))
     out.append(Obligation('top/prefix', ob_prefix(), dict(sources='2^3', prefixes=PFX), labels=('done',)))
     out.append(Obligation('top/buildtype', ob_buildtype(), dict(buildtype='all', source='any of 3', debug_opt='given or not'), labels=('done',)))
+    out.append(Obligation('deprecated', ob_deprecated(), dict(forms='dict on feature | dict on array | list on combo | renamed option', value='symbolic among valid, deprecated and invalid spellings'), labels=('accepted', 'rejected')))
     out.append(Obligation('yielding/kinds', ob_yield_kinds(), dict(kinds='boolean, integer -2..2, string <=1, feature, combo, array', parent='symbolic value, then set from the command line'),
                           labels=('yields', 'different-type'), max_paths=2000000))
     for kind in ('system', 'project', 'yielding'):
